@@ -171,7 +171,11 @@ Fixpoint remove_nodes (t : wtree) (idxs : list nat) : wtree :=
     end
   end.
 
-(** [remove_source]; in the directory arm nothing is unlinked from [external_dependencies]
+(** [remove_source]; "below the directory" is [Path::starts_with]: a COMPONENT-wise prefix
+    ([nodes_under] uses [starts_with] of [Model/WorkerFs.v]), so [src/sub.lua] and
+    [src/sub_extra/x.lua] are not below [src/sub].  The correspondence splits every path of the
+    harness at [/] into components before giving it to the model.
+    In the directory arm nothing is unlinked from [external_dependencies]
     (the hash-map order of the removals is modelled as index order) *)
 Definition remove_source (t : wtree) (p : path) : res wtree :=
   match (match node_of t p with
